@@ -137,7 +137,7 @@ def check_equiv(p1, p2, sizes, include_locals=(), unwind=5, int_bound=6, timeout
         try:
             it2, fr2, obs2 = _interpret(sem, p2, sizes, include_locals, unwind, int_bound, intents, trace_pragmas=trace_pragmas)
         except NotEncoded as ex:
-            if any(k in str(ex) for k in ('unbound variable', 'missing actual for', 'more actual than dummy', 'actual A for scalar dummy', 'for scalar dummy', 'type BasicType.DEFERRED')):
+            if any(k in str(ex) for k in ('unbound variable', 'missing actual for', 'more actual than dummy', 'actual A for scalar dummy', 'for scalar dummy', 'type BasicType.DEFERRED', 'duplicate dummy argument', 'duplicate actual for dummy')):
                 raise _UnboundInTransformed(str(ex)) from ex
             raise
         assume, viol, why = _violation(sem, it1, obs1, it2, obs2, n1)
